@@ -98,7 +98,9 @@ def run_doerfler(eng, M, gridname, hist, variant, max_leaves, fail, concrete=Non
             arr = np.array(eta, dtype=object) if not concrete else np.array(eta, dtype=float)
             mesh.dorfler_refine_isotropic(arr, theta)
         else:
-            arr = np.empty((n, 2), dtype=object if not concrete else float)
+            # memory layout of the caller's (N, 2) array alternates with (number of leaves + history length): C-ordered (np.zeros)
+            # or Fortran-ordered (np.array([eta_t, eta_x]).T) - the routine must address it by index, not by memory
+            arr = np.empty((n, 2), dtype=object if not concrete else float, order='F' if (n + len(acts)) % 2 else 'C')
             for i in range(n):
                 arr[i, 0], arr[i, 1] = eta[i], eta[n + i]
             mesh.dorfler_refine_anisotropic(arr, theta)
